@@ -525,9 +525,7 @@ func (g *Gen) Value(t *Ty, gt *GT) *Val {
 		}
 		return &Val{Tag: "ptr", Elems: []*Val{g.Value(t, gt.Elems[0])}}
 	case "iface":
-		// (an untyped nil bound to a tuple column panics in marshalTuple: driven by fixed ops and at top level only,
-		// so that inside a Go map - random iteration order - every failing entry fails the same way)
-		if g.chance(12) && t.Name != "tuple" {
+		if g.chance(12) {
 			return &Val{Tag: "nil"}
 		}
 		if g.chance(3) {
